@@ -30,12 +30,13 @@ class C35(Prop):
             "conf.IsValidPathName, api.paramName, moq processSetupMessage called directly; WebTransport sessions opened "
             "by webtransport-go's client; RTSP DESCRIBE against a real Core. TESTING (crash oracle): a real Core in a child "
             "process, hostile bytes thrown at every listener, then liveness of the process and of every listener. "
-            "RACED MoQ SESSIONS (half of the moq driver's budget; 24 fixed scenarios on every run, then random ones): a real "
+            "RACED MoQ SESSIONS (half of the moq driver's budget; 27 fixed scenarios on every run, then random ones): a real "
             "session created by the real Server on a scripted connection; 2-5 concurrent stream handlers (runUniStream / "
             "runBidiStream in their own goroutines under recover(): SETUP / CLIENT_SETUP with and without PATH / AUTHORITY, "
             "duplicates, SUBSCRIBE / PUBLISH of .catalog and of tracks, catalog and track subgroups, other and undecodable "
             "messages, truncated and empty streams), apiItem() and Close() callers; transports WebTransport / native QUIC, "
-            "drafts 16-19, path manager refusing (auth / no stream / other) or accepting (0 or 1 track); the script holds "
+            "drafts 16-19, path manager refusing (auth / no stream / other) or accepting (0 or 1 track), answering at once "
+            "or held back per request; the script holds "
             "s.mutex, starts handlers, lets bytes arrive, waits until every goroutine is parked (runtime.Stack states), "
             "releases, ends streams, cancels the context, in fixed families (duplicate SETUPs into the held mutex, SETUP "
             "against requests / Close(), requests into the held mutex after SETUP, catalogs) and at random; Coq accepts the "
